@@ -407,11 +407,53 @@ func c07case(c *engine.Ctx, env *zygo.Zlisp, a, b num) {
 	c.Outcome(out.String())
 }
 
+// c07nary: (op a b c) is the left fold ((op (op a b) c)) of the binary operation, for every mix of integer and float
+// operands (an integer prefix keeps integer arithmetic: wrap-around, exact division, division by zero is an error)
+func c07nary(c *engine.Ctx, env *zygo.Zlisp, only string) {
+	const p53 = int64(1) << 53
+	ints := []int64{0, 1, -1, 2, 7, p53 + 1, math.MaxInt64, math.MinInt64, math.MaxInt64 - 1}
+	floats := []float64{0.5, 2.0, 0.0, -1.5, 1e300}
+	var vals []num
+	for _, i := range ints {
+		vals = append(vals, num{kind: 'I', i: i})
+	}
+	for _, f := range floats {
+		vals = append(vals, num{kind: 'F', f: f})
+	}
+	for _, op := range []string{"+", "-", "*", "/"} {
+		for _, a := range vals {
+			for _, b := range vals {
+				for _, d := range vals {
+					w := "N|" + op + "|" + a.String() + " " + b.String() + " " + d.String()
+					if !(only == "" && c.Mine() || only == w) {
+						continue
+					}
+					c.Begin(w)
+					env.AddGlobal("aa", a.sexp())
+					env.AddGlobal("bb", b.sexp())
+					env.AddGlobal("cc", d.sexp())
+					flat := zy.Eval(env, "("+op+" aa bb cc)")
+					nested := zy.Eval(env, "("+op+" ("+op+" aa bb) cc)")
+					if flat.Panic != "" {
+						c.Violation("panic", "C07/panic/nary/"+op, w, flat.Panic)
+						continue
+					}
+					fs, ns := flat.Short(), nested.Short()
+					if fs != ns {
+						c.Violation("nary-fold", "C07/nary-fold/"+op+"/"+string(a.kind)+string(b.kind)+string(d.kind), w, fmt.Sprintf("(%s %s %s %s) gives %s, the left fold (%s (%s a b) c) gives %s", op, a.sexp().SexpString(nil), b.sexp().SexpString(nil), d.sexp().SexpString(nil), flat, op, op, nested))
+					}
+					c.Outcome("N|" + op + "|" + fs)
+				}
+			}
+		}
+	}
+}
+
 func init() {
 	engine.Register(&engine.Check{
 		ID:    "C07",
 		Level: "exploration",
-		Rule: "all ordered pairs over a boundary grid of int64/uint64/char/float64 values (bound as Go values with AddGlobal) x 6 comparison operators (for a value against itself also with one object on both sides: alias, parameter used twice), hash lookup, and + - * / mod; " +
+		Rule: "all ordered pairs over a boundary grid of int64/uint64/char/float64 values (bound as Go values with AddGlobal) x 6 comparison operators (for a value against itself also with one object on both sides: alias, parameter used twice), hash lookup, and + - * / mod; three-operand calls (op a b c) over 14 ints/floats in all mixes must equal the left fold of binary calls; " +
 			"oracle computed with math/big and Go fixed-width arithmetic; distinct_nontrivial = distinct result vectors of a pair",
 		Assumptions: []string{
 			"not specified by the property and therefore only checked for 'no panic': int64 vs uint64, int vs char and uint64 vs float comparisons; arithmetic between char and integers; mod with a float operand",
@@ -433,11 +475,19 @@ func init() {
 					c07case(c, env, a, b)
 				}
 			}
+			c07nary(c, env, "")
 		},
 		Replay: func(c *engine.Ctx, w string) {
-			f := strings.Fields(w)
 			env := zy.New(false)
 			defer env.Close()
+			if strings.HasPrefix(w, "N|") {
+				c07nary(c, env, w)
+				for i := range c.Viol {
+					c.Viol[i].Key = "*"
+				}
+				return
+			}
+			f := strings.Fields(w)
 			c07case(c, env, parseNum(f[0]), parseNum(f[1]))
 		},
 	})
